@@ -141,7 +141,7 @@ Theorem C28_vector_index_reload_C14 :
     let r := VecStore.vrun VecStore.vstate0 ops in
     let v := snd (fst r) in
     let xs := combine ops (snd r) in
-    VecProofs.vrun_ok [] xs = true -> forallb VecSpec.emb_ok ops = true -> VecStore.known_class ops = false ->
+    VecProofs.vrun_ok [] xs = true ->
     VecStore.mem_index (VecStore.load v) = VecStore.mem_index v /\
     (VecStore.vdisk v = VecStore.vmem v -> VecStore.observe_vec (VecStore.load v) = VecStore.observe_vec v).
 Proof. exact vec_reload_C14. Qed.
